@@ -97,3 +97,39 @@ func (c *Ctx) RequireReached(rule, key string, fn *FuncInfo, scope *ast.BlockStm
 }
 
 var _ = fmt.Sprintf
+
+// RequireAtEnd: req holds whenever control falls off the end of scope (a loop body: at the end
+// of every iteration that completes), whatever state the scope was entered in. Statements that
+// leave the scope early (return, break, continue, panic) are not end points.
+func (c *Ctx) RequireAtEnd(rule, key string, fn *FuncInfo, scope *ast.BlockStmt, req string, subst map[string]string) *Obligation {
+	src := substReq(req, subst)
+	desc := src + " at the end of the block"
+	if len(scope.List) == 0 {
+		return c.Undec(rule, key, c.P.Pos(scope), fn.Key(), desc, "empty block")
+	}
+	last := scope.List[len(scope.List)-1]
+	e := NewFactEngine(c.P, fn)
+	f, err := e.ParseReq(src, last.End())
+	if err != nil {
+		// names declared inside the block are out of scope at its end: try at the last statement
+		f, err = e.ParseReq(src, last.Pos())
+		if err != nil {
+			return c.Undec(rule, key, c.P.Pos(scope), fn.Key(), desc, err.Error())
+		}
+	}
+	u, err := e.newUniverse(f, scope, last)
+	if err != nil {
+		return c.Undec(rule, key, c.P.Pos(scope), fn.Key(), desc, err.Error())
+	}
+	w := &walker{e: e, u: u, sc: e.fnScope()}
+	end := w.stmts(scope.List, u.valid.clone())
+	if e.undecided != "" {
+		return c.Undec(rule, key, c.P.Pos(scope), fn.Key(), desc, "unsupported control flow: "+e.undecided)
+	}
+	for v := 0; v < 1<<uint(len(u.atoms)); v++ {
+		if end.has(v) && !evalFormula(f, u, v) {
+			return c.Bad(rule, key, c.P.Pos(last), fn.Key(), desc, "the block can end with: "+u.describe(v))
+		}
+	}
+	return c.OK(rule, key, c.P.Pos(last), fn.Key(), desc)
+}
